@@ -102,6 +102,15 @@ def add_step(sym, pre_cells, new_cell, unified, versioned, md5=(False, False, Fa
     sym.check("refused-iff-identity-collision", sym.iff(raised, sym.and_(enforced, collision)))
     if raised:
         sym.check("refusal-leaves-manifest-unchanged", same_snapshot(snapshot(im), before))
+        # a refusal is not a one-off: the very same object offered again, to the same cell and to another one, is refused again
+        for c2 in (new_cell, (new_cell + 1) % len(CELLS)):
+            try:
+                im.add(CELLS[c2][0], CELLS[c2][1], new)
+                again = False
+            except ValueError:
+                again = True
+            sym.check("refused-again[%d]" % c2, again)
+        sym.check("still-unchanged-after-the-retries", same_snapshot(snapshot(im), before))
     else:
         imgs = all_images(im)
         sym.check("image-filed", any(x is new for x in im.images[CELLS[new_cell][0]][CELLS[new_cell][1]]))
